@@ -1,7 +1,9 @@
 (* C13 -- The per-frame row view equals the columnar data at the same index.
    The generated per-struct transpose_one / From<mutable> code is regenerated into tables on every run. *)
 From Coq Require Import List NArith Bool String.
-From Peppi Require Import Layout.Syntax Gen.Funs Gen.Tables Layout.Sem Layout.Spec Layout.Shapes Layout.Rows Layout.Transpose.
+From Coq.Strings Require Import Byte.
+From Peppi Require Import Base.Bytes Base.Outcome Layout.Syntax Gen.Funs Gen.Tables Layout.Sem Layout.Spec Layout.Shapes Layout.Rows Layout.Transpose
+  Model.Start Model.Parse Model.Reader Model.Writer Model.Recorder Model.View Proofs.C04Proof Proofs.C13Proof.
 Import ListNotations.
 
 (* closed obligations on the current source: both generated transpose_one families are the identity leaf map over
@@ -30,6 +32,22 @@ Proof.
   destruct C13_tables_identity as [_ [H _]]. rewrite forallb_forall in H. apply H. exact HE.
 Qed.
 
+(* end to end, on the hand model of Frame::transpose_one (Model/View.v): for EVERY well-formed replay and EVERY frame
+   index i in range, the record view of row i of the parsed game is the i-th frame OCCURRENCE of the file: its id, every
+   occupied character's pre and post values (the null row for a character without events), its start / end values
+   where the version has them, and exactly its items in order; and an index out of range is an index error *)
+Theorem C13_parsed_view_is_occurrence : forall r st h i f,
+  wf_replay r = true -> game_start (r_start r) = ROk st -> nth_error (r_frames r) i = Some f ->
+  exists g, slp_read {| o_skip := false; o_hash := h |} (emit r) = Ok (g, []) /\
+            frame_view (r_ver r) (g_frames g) i = Ok (view_of (r_ver r) (port_occupancy st) f).
+Proof. exact c13_parsed_view. Qed.
+Theorem C13_view_in_range_iff : forall v ports fs,
+  Forall (fun f => wf_frame v (layout_of v) (slots_of ports) f = true) fs ->
+  forall i, (exists w, frame_view v (frames_of v ports fs) i = Ok w) <-> (i < List.length fs)%nat.
+Proof. exact c13_view_ok_iff. Qed.
+
 Print Assumptions C13_tables_identity.
+Print Assumptions C13_parsed_view_is_occurrence.
+Print Assumptions C13_view_in_range_iff.
 Print Assumptions C13_row_view_mutable.
 Print Assumptions C13_row_view_immutable.
